@@ -2,6 +2,7 @@
 import g1
 
 PROPERTY = 'C08'
+THOROUGH_EXTRA = 120
 
 
 def _variants(tier):
@@ -59,7 +60,7 @@ def subharnesses(tier):
 
 
 def budget(tier, name):
-    return 400.0 if tier == 'quick' else 1500.0
+    return 400.0 if tier == 'quick' else 600.0
 
 
 def harness(S, spec):
